@@ -22,6 +22,7 @@ PROP = dict(
          "unified files are re-read once more when complete. Non-trivial: >= 2 flowing wells compared, dynamic and schedule "
          "comparisons both made; distinct = hash of (deck text, unit system)",
     stages=[
+        "schedule: the position of a segment inside WellSegments (original: branch by branch, restarted: by number) is not compared, segments are matched by number; counted as 'segment storage order differs'",
         dict(harness="c05_restart", flavour="plain", cases={Q: 2400, T: 30000}, timeout={Q: 1200, T: 7200}),
     ],
     min_nontrivial={Q: 1200, T: 15000},
